@@ -205,6 +205,7 @@ class Repo:
     # --------------------------------------------------------------- index
     def _index(self):
         for m in self.modules.values():
+            canonicalise_locals(m)
             self._index_aliases(m)
             self._index_defs(m, m.tree.body, prefix='', cls=None)
 
@@ -612,6 +613,111 @@ def enclosing_class(node):
     while n is not None and not isinstance(n, ast.ClassDef):
         n = getattr(n, '_parent', None)
     return n
+
+
+# ---------------------------------------------------------------- local-name canonicalisation
+#
+# Many one-function clauses compare normalised statement text.  A pure rename of a local variable must not make them
+# report the statement as missing.  refs/locals_order.json pins, for every outermost function of the reference tree, its
+# local (non-parameter) names in order of first binding.  When the current function binds the same number of locals in
+# the same positions but under other names, the in-memory syntax tree is renamed back to the pinned names before any rule
+# looks at it (reports then also carry the pinned names; line numbers are the real ones).  If locals were added or removed
+# the function is left as it is and the rules judge it as written.
+
+_PINNED_ORDER = None
+
+
+def _pinned_order():
+    global _PINNED_ORDER
+    if _PINNED_ORDER is None:
+        import json
+        p = os.path.join(os.path.dirname(os.path.abspath(__file__)), 'refs', 'locals_order.json')
+        try:
+            with open(p) as f:
+                _PINNED_ORDER = json.load(f)
+        except OSError:
+            _PINNED_ORDER = {}
+    return _PINNED_ORDER
+
+
+def ordered_locals(fn):
+    """(names in order of first binding, banned) for an outermost function: locals that can be renamed consistently over
+    the whole subtree (not parameters of this or a nested function, not global/nonlocal, not imported/class/def names)"""
+    a = fn.args
+    banned = {x.arg for x in a.posonlyargs + a.args + a.kwonlyargs}
+    if a.vararg:
+        banned.add(a.vararg.arg)
+    if a.kwarg:
+        banned.add(a.kwarg.arg)
+    stores = []
+    for n in ast.walk(fn):
+        if isinstance(n, (ast.Global, ast.Nonlocal)):
+            banned |= set(n.names)
+        elif isinstance(n, (ast.FunctionDef, ast.AsyncFunctionDef, ast.Lambda)) and n is not fn:
+            b = n.args
+            banned |= {x.arg for x in b.posonlyargs + b.args + b.kwonlyargs}
+            if b.vararg:
+                banned.add(b.vararg.arg)
+            if b.kwarg:
+                banned.add(b.kwarg.arg)
+            if not isinstance(n, ast.Lambda):
+                banned.add(n.name)
+        elif isinstance(n, ast.ClassDef):
+            banned.add(n.name)
+        elif isinstance(n, (ast.Import, ast.ImportFrom)):
+            for al in n.names:
+                banned.add((al.asname or al.name).split('.')[0])
+        elif isinstance(n, ast.ExceptHandler) and n.name:
+            banned.add(n.name)
+        elif isinstance(n, ast.Name) and isinstance(n.ctx, ast.Store):
+            stores.append((getattr(n, 'lineno', 0), getattr(n, 'col_offset', 0), n.id))
+    out = []
+    for _, _, name in sorted(stores):
+        if name not in banned and name not in out and not (name.startswith('__') and name.endswith('__')):
+            out.append(name)
+    return out
+
+
+def _outer_functions(m):
+    def rec(body, prefix, inside):
+        for n in body:
+            if isinstance(n, (ast.FunctionDef, ast.AsyncFunctionDef)):
+                yield f'{m.name}:{prefix}{n.name}', n
+            elif isinstance(n, ast.ClassDef):
+                yield from rec(n.body, f'{prefix}{n.name}.', inside)
+            elif isinstance(n, (ast.If, ast.Try, ast.With)):
+                for fld in ('body', 'orelse', 'finalbody'):
+                    yield from rec(getattr(n, fld, []) or [], prefix, inside)
+                for h in getattr(n, 'handlers', []):
+                    yield from rec(h.body, prefix, inside)
+    yield from rec(m.tree.body, '', False)
+
+
+def canonicalise_locals(m):
+    pinned = _pinned_order()
+    if not pinned:
+        return
+    for fq, fn in _outer_functions(m):
+        want = pinned.get(fq)
+        if not want:
+            continue
+        cur = ordered_locals(fn)
+        if cur == want or len(cur) != len(want):
+            continue
+        # only names that disappeared are mapped onto names that appeared (in order of first binding); names that still
+        # exist keep their meaning, so a mere re-ordering of statements renames nothing
+        missing = [w for w in want if w not in cur]
+        new = [c for c in cur if c not in want]
+        if not missing or len(missing) != len(new):
+            continue
+        ren = dict(zip(new, missing))
+        # a pinned name that is still in use for something else would collide
+        taken = {n.id for n in ast.walk(fn) if isinstance(n, ast.Name)} | {a_.arg for a_ in ast.walk(fn) if isinstance(a_, ast.arg)}
+        if any(w in taken and w not in ren for w in ren.values()):
+            continue
+        for n in ast.walk(fn):
+            if isinstance(n, ast.Name) and n.id in ren:
+                n.id = ren[n.id]
 
 
 def qualname_of(node):
